@@ -93,6 +93,7 @@ static void unique_clr(void *mem, void *priv)
 }
 static void *last_unique_priv;
 static void unique_clr2(void *mem, void *priv) { last_unique_priv = priv; unique_clr(mem, priv); }
+static void unique_release_sentinel(void *mem, void *priv) { (void)mem; (void)priv; }      /* never called: marks "out-parameter not written" */
 
 static void call_begin(void) { vrt_ev_begin(); ev_consumed = 0; nobs = 0; clr_bad = 0; }
 
@@ -379,20 +380,26 @@ static int st_apply(uint32_t op, int do_audit)
         VRT_COUNT("op.unique.alloc");
         break;
     case K_URELEASE: {
-        cstl_xtor_func_t *clr = NULL;
-        void *priv = NULL, *p;
+        /* b: bit 0 = the clear function is asked for, bit 1 = its priv is asked for (each out-parameter is optional
+         * on its own); both are pre-set to a sentinel so that "not written" shows */
+        static int sentinel;
+        cstl_xtor_func_t *clr = unique_release_sentinel;
+        void *priv = &sentinel, *p;
         if (a >= nu) return 0;
         vrt_state(Ua[a] < 0 ? "empty" : "owning");
-        VRT_OP1("unique_ptr.release", "U%ld", a);
+        VRT_OP2("unique_ptr.release", "U%ld out-parameters=%ld (1 clr, 2 priv)", a, b);
         call_begin();
-        p = cstl_unique_ptr_release(&U[a], b ? &clr : NULL, b ? &priv : NULL);
+        p = cstl_unique_ptr_release(&U[a], (b & 1) ? &clr : NULL, (b & 2) ? &priv : NULL);
         call_end("unique_ptr.release");
         if (Ua[a] < 0) {
             VRT_CHECK(p == NULL, "memory.unique_ptr.release.empty-not-null", "release of an empty unique pointer returned %p", p);
         } else {
             VRT_CHECK(p == A[Ua[a]].mem, "memory.unique_ptr.release.wrong-pointer", "release returned %p, allocation is %p", p, A[Ua[a]].mem);
-            if (b) VRT_CHECK(clr == (A[Ua[a]].noclr ? NULL : unique_clr2) && priv == A[Ua[a]].book, "memory.unique_ptr.release.clr-or-priv",
-                             "release reported a wrong clear function or priv");
+            if (b & 1) VRT_CHECK(clr == (A[Ua[a]].noclr ? NULL : unique_clr2), "memory.unique_ptr.release.clr-or-priv",
+                                 "release reported a wrong clear function (out-parameters %d)", b);
+            if (b & 2) VRT_CHECK(priv == A[Ua[a]].book, "memory.unique_ptr.release.clr-or-priv",
+                                 "release reported a wrong priv, or none (out-parameters %d)", b);
+            if (b == 1 || b == 2) VRT_COUNT("op.unique.release.one-out-parameter");
             VRT_CHECK(*(uint32_t *)p == MEMMAGIC, "memory.unique_ptr.release.cleared", "released memory was already cleared");
             /* the harness now owns the block and frees it */
             vrt_lib_free_block(p);
@@ -517,8 +524,10 @@ static int build_alphabet(int s, int w, int u, uint32_t *al)
         al[n++] = OP(K_UALLOC, i, 0, 16);
         al[n++] = OP(K_UALLOC, i, 0, 17);       /* odd size: no clear callback */
         al[n++] = OP(K_UALLOC, i, 0, 0);
-        al[n++] = OP(K_URELEASE, i, 1, 0);
+        al[n++] = OP(K_URELEASE, i, 3, 0);
         al[n++] = OP(K_URELEASE, i, 0, 0);
+        al[n++] = OP(K_URELEASE, i, 1, 0);
+        al[n++] = OP(K_URELEASE, i, 2, 0);
         al[n++] = OP(K_URESET, i, 0, 0);
     }
     if (u > 1) al[n++] = OP(K_USWAP, 0, 0, 0);
@@ -642,7 +651,7 @@ static const char *const required[] = {
     "op.share", "op.lock.yields-owner", "op.lock.dead-yields-empty", "op.weak.reset.last-reference-after-owners",
     "op.swap.owners-of-different-allocations", "op.lock.into-last-owner-of-same", "op.share.into-owner-of-other",
     "model.last-owner-released", "model.bookkeeping-released", "event.clear.shared", "event.clear.unique",
-    "op.unique.release.owning", "closure.states", "random.histories", "big.cases", "event.clear.reentrant-weak-reset", NULL
+    "op.unique.release.owning", "op.unique.release.one-out-parameter", "closure.states", "random.histories", "big.cases", "event.clear.reentrant-weak-reset", NULL
 };
 static const struct vrt_harness H = { "memory", ncases, run_case, winit, NULL, required, 16 };
 int main(int argc, char **argv) { return vrt_main(argc, argv, &H); }
